@@ -597,10 +597,13 @@ class EnvelopeWorld(World):
             auth.append(auth[0])                     # duplicate in the authorised list
         if r < 0.2:
             auth.append(gen.junk_key(rng)[:0] + "".join(rng.choice("0123456789abcdef") for _ in range(64)))
-        if not wellformed and r > 0.96:
-            bad = rng.choice(["upper", "nonlist", "short", "nonstr"])
-            if bad == "upper":
-                auth.append(auth[0].upper())
+        if not wellformed and r > 0.93:
+            bad = rng.choice(["upper", "nonlist", "short", "nonstr", "present", "present"])
+            odd = [k for k in E["signatures"] if isinstance(k, str) and k not in self.keys.pub and len(k) >= 60]
+            if bad == "present" and odd:
+                auth.append(rng.choice(odd))             # a non-canonical spelling that is present in the signature map
+            elif bad in ("upper", "present"):
+                auth.append(gen.respell(auth[0], rng.choice(["upper", "first_upper", "upper"])))
             elif bad == "nonlist":
                 return {k: 1 for k in auth}
             elif bad == "short":
